@@ -133,9 +133,7 @@ Theorem C16_mask_layout : forall bs ps j r bits k,
   (j < length ps -> r < bs -> nth (j * bs + r) (blocks bs ps) 0 = nth j ps 0 * bs + r)
   /\ (forall p, In p (true_positions k bits) <-> (k <= p /\ nth (p - k) bits false = true))
   /\ StronglySorted lt (true_positions k bits).
-Proof.
-  intros; split; [apply blocks_layout|split; [intros; apply true_positions_in|apply true_positions_sorted]].
-Qed.
+Proof. exact mask_layout. Qed.
 Print Assumptions C16_mask_layout.
 
 (* stack: operand j sits at index j of a new last axis *)
